@@ -3,6 +3,7 @@ package props
 import (
 	"fmt"
 	"math"
+	"math/rand"
 	"sort"
 	"strconv"
 	"strings"
@@ -98,6 +99,10 @@ func runC14(c *Ctx, idx int, o *Obs) {
 	{
 		mat, tips := mustParse(text).ToDistanceMatrix(tree.DISTANCE_METRIC_BRLEN)
 		checkMatrix("brlen matrix", mat, tips, pathSum(bm, wLen), 1e-12*scale)
+		// a tree object with a past: indexed while one tip had another name (its rank in name order has changed since)
+		mat, tips = usedObject(r, text).ToDistanceMatrix(tree.DISTANCE_METRIC_BRLEN)
+		checkMatrix("brlen matrix (previously indexed and renamed object)", mat, tips, pathSum(bm, wLen), 1e-12*scale)
+		o.Ev("ToDistanceMatrix_used_object", 1)
 		mat, tips = mustParse(text).ToDistanceMatrix(tree.DISTANCE_METRIC_NONE)
 		checkMatrix("none matrix", mat, tips, pathSum(bm, wOne), 0)
 		o.Ev("ToDistanceMatrix", 2)
@@ -256,6 +261,50 @@ func runC14(c *Ctx, idx int, o *Obs) {
 						}
 						if !o.Check(err == nil && math.Abs(v-w) <= 1e-9*math.Abs(w)+1e-11, "cli_matrix_entry", fmt.Sprintf("gotree matrix d(%s,%s)=%s, path sum %v", names[i], names[j], f[1+j], w), text) {
 							break rows
+						}
+					}
+				}
+			}
+		}
+		// several trees in one file, without --avg: one matrix per tree, in order
+		if plainNewick(text) && len(names) >= 3 {
+			t2 := mustParse(text)
+			rand.Seed(r.Int63())
+			t2.ShuffleTips()
+			for _, e := range t2.Edges() {
+				e.SetLength(float64(1+r.Intn(8)) / 4)
+			}
+			m2 := modelOf(t2)
+			fm := tmpFile(c, "t2.nw", t2.Newick()+"\n"+text+"\n"+t2.Newick()+"\n")
+			res := runCLI(c, "", "matrix", "-i", fm, "-m", "brlen")
+			o.Ev("cli_multi", 1)
+			if o.Check(res.Exit == 0 && !res.Panic, "cli_matrix_failed", "three trees: "+res.brief(), text) {
+				lines := strings.Split(strings.TrimRight(res.Stdout, "\n"), "\n")
+				n := len(names)
+				if o.Check(len(lines) == 3*(n+1), "cli_matrix_shape", fmt.Sprintf("gotree matrix on 3 trees of %d tips printed %d lines, expected %d", n, len(lines), 3*(n+1)), text, "multi", "true") {
+					wants := []map[string]float64{pathSum(m2, wLen), pathSum(bm, wLen), pathSum(m2, wLen)}
+				blocks:
+					for b := 0; b < 3; b++ {
+						blk := lines[b*(n+1) : (b+1)*(n+1)]
+						for i, ln := range blk[1:] {
+							f := strings.Split(ln, "\t")
+							if !o.Check(len(f) == n+1 && f[0] == names[i], "cli_matrix_row", fmt.Sprintf("matrix %d row %d: %q", b, i, Trunc(ln, 200)), text, "multi", "true") {
+								break blocks
+							}
+							for j := 0; j < n; j++ {
+								if i == j {
+									continue
+								}
+								v, err := strconv.ParseFloat(f[1+j], 64)
+								a, bb := names[i], names[j]
+								if a > bb {
+									a, bb = bb, a
+								}
+								w := wants[b][a+"\x00"+bb]
+								if !o.Check(err == nil && math.Abs(v-w) <= 1e-9*math.Abs(w)+1e-11, "cli_matrix_entry", fmt.Sprintf("gotree matrix, tree %d of 3: d(%s,%s)=%s, path sum is %v", b, names[i], names[j], f[1+j], w), text, "multi", "true") {
+									break blocks
+								}
+							}
 						}
 					}
 				}
